@@ -652,7 +652,7 @@ def run(ctx):
     rule = ("generated training lists (3-40 passwords, alphabets of 2-8 symbols, n-gram 2-4; families: dominated by length = "
             "n-gram, single length, mixed, alphabet smaller than the character set, duplicates, non-ASCII in utf-8 / latin-1 / "
             "cp1251, text that is not in Unicode normal form C - combining marks after their base letter, singletons, Hangul jamo, CJK "
-            "compatibility ideographs - next to its NFC twin (utf-8), long, empty CP, and 'extreme ratio' lists of ~100k weighted passwords in which a seen transition and a "
+            "compatibility ideographs - next to its NFC twin (utf-8 / utf-16 / utf-16-le), long, empty CP, and 'extreme ratio' lists of ~100k weighted passwords in which a seen transition and a "
             "seen length are smoothed to the cap level 10) trained in-process with the real trainer objects and written by the real writer; per model "
             "the candidate strings are the training passwords, members of enumerated levels, walks of every boundary length "
             "(0, 1, ngram-1, ngram, ngram+1, max-1, max, max+1, max+2), foreign-character and one-character mutations, the NFC / NFD spelling of every training password and member "
